@@ -176,6 +176,9 @@ def run_check(mod, tier, seed):
         else:
             new.append(v)
     os.makedirs(os.path.join(OUT, "replays"), exist_ok=True)
+    import glob
+    for stale in glob.glob(os.path.join(OUT, "replays", f"{pid}-*.json")):
+        os.remove(stale)            # replay files of an earlier run of this check
     lines = []
     seen_keys = set()
     n = 0
